@@ -188,6 +188,11 @@ class Ctx:
     def tlc(self, module, cfg=None, must_pass=True, **kw):
         mod = module if str(module).endswith(".tla") else f"{module}.tla"
         r = run_tlc(mod, cfg=cfg, **kw)
+        if must_pass and not r.ok:
+            # TLC is deterministic: a genuine error reproduces; a JVM casualty of a loaded machine does not
+            self.extra["tlc_retries"] = self.extra.get("tlc_retries", 0) + 1
+            self.extra.setdefault("tlc_retry_tails", []).append("\n".join(r.out.splitlines()[-5:])[-400:])
+            r = run_tlc(mod, cfg=cfg, **kw)
         self.states += r.distinct
         self.transitions += r.generated
         self.tlc_runs.append({"module": str(module), "cfg": str(cfg), "distinct": r.distinct,
